@@ -26,6 +26,7 @@ RULE = (
     "afterwards a sequential continuation of calls / discards / clears from the contents left behind must be explained "
     "by the C10 LRU model started from some arrangement of successfully computed keys of the observed currsize. Non-trivial: >=2 invocations "
     "overlapped in time; distinct = distinct (scenario, interleaving) by 64-bit hash."
+    " Extensions of rounds 9-12: a pattern set with one argument given by keyword under two names and positionally; step invariant: currsize never shrinks without a clear / discard."
 )
 COMPONENTS = dict(COMPONENTS_AIO, models=["OrderedDict LRU model of C10 for the sequential continuation"])
 ASSUMPTIONS = [
